@@ -69,7 +69,8 @@ func renderToks(toks []string, variant uint64) string {
 		}
 		sb.WriteString(w)
 	}
-	sb.WriteString("\n")
+	// the file may end right after the last token, or with a line break / blank
+	sb.WriteString([]string{"\n", "", " ", "\r\n"}[(variant>>17)%4])
 	return sb.String()
 }
 
